@@ -183,7 +183,18 @@ pub fn build(c: &FlowCase) -> (Vec<Pkt>, Vec<(usize, usize)>, Vec<(usize, usize)
             out.push((prev, stream.len()));
         }
         out.retain(|(a, b)| b > a);
-        out
+        // no segment above 16000 bytes: an IP datagram holds at most 65535, and streams with several frames near the 16 KiB
+        // frame-size limit are longer than that
+        let mut bounded = vec![];
+        for (a, b) in out {
+            let mut x = a;
+            while b - x > 16000 {
+                bounded.push((x, x + 16000));
+                x += 16000;
+            }
+            bounded.push((x, b));
+        }
+        bounded
     };
     let csegs = mk_segs(&cs, &c.c_cuts);
     let ssegs = mk_segs(&ss, &c.s_cuts);
